@@ -1094,7 +1094,8 @@ def evaluate_detail(d) -> Tuple[Any, Any]:
 
 
 def cmp_twin_log(d) -> List[Any]:
-    """Recorded defect behaviour of finding C03-f, as a twin of the evaluator on the shared-comparison shapes: the comparison
+    """(regression documentation; no longer used as a tolerated class since krrood ef33928)
+    Recorded defect behaviour of finding C03-f, as a twin of the evaluator on the shared-comparison shapes: the comparison
     c = x.a > t is ONE node; its first occurrence in a row computes the value and stores `not value` in the node's flag, its
     second occurrence in the same row (Comparator._evaluate__, branch `if self._id_ in sources`) answers with the flag -- which
     another evaluation sharing the node may have overwritten while this one was suspended at a row."""
@@ -1163,8 +1164,8 @@ def extra_verdict(d, impl) -> Tuple[str, Any]:
     if log == exp:
         return "ok", exp
     if all(sh[0] in CMP_SHAPES for sh in d["shapes"]):
-        # finding C03-f (K_shared_cmp_replay): exact match with the recorded defect behaviour, nothing else
-        return ("known:K_shared_cmp_replay" if log == cmp_twin_log(d) else "violation"), exp
+        # finding C03-f was repaired in krrood ef33928: the shared-comparison family must simply equal the isolated results
+        return "violation", exp
     n = len(d["its"])
     got: Dict[int, list] = {i: [] for i in range(n)}
     want: Dict[int, list] = {i: [] for i in range(n)}
